@@ -135,7 +135,7 @@ func vData(stream, d []byte) string {
 	}
 	var parts []string
 	i := 0
-	for i < len(d) && len(parts) < 64 {
+	for i < len(d) && len(parts) < 400 {
 		w := 8
 		if len(d)-i < w {
 			w = len(d) - i
@@ -226,7 +226,7 @@ func vC01Run(out *vOut, rng *vRng, idx int, style int) {
 		case 2:
 			script = append(script, 2048)
 		case 3:
-			script = append(script, 1<<20)
+			script = append(script, 65536)
 		default:
 			script = append(script, []int{1, 2, 100, 1000, 2047, 2048, 4096, 65536}[rng.Intn(8)])
 		}
@@ -252,6 +252,10 @@ func vC01Run(out *vOut, rng *vRng, idx int, style int) {
 		case r < 20: // Read
 			n := readSizes[rng.Intn(len(readSizes))]
 			matching := s.cx.matching
+			if depth > 0 && !matching {
+				// a read between an inner unfreeze and the outer one: no shipped matcher does that
+				s.xfOK = false
+			}
 			d, err := s.opRead(n)
 			if matching {
 				s.nMatchRead++
@@ -327,6 +331,9 @@ func vC01Run(out *vOut, rng *vRng, idx int, style int) {
 			if !s.cx.matching {
 				sz := []int{16, 64, 1024, 4096, 4096, 4096}[rng.Intn(6)]
 				n1 := []int{1, 1, 12, 16, 108, 4096}[rng.Intn(6)]
+				if depth > 0 {
+					s.xfOK = false
+				}
 				br := bufio.NewReaderSize(s.cx, sz)
 				p := make([]byte, n1)
 				k, err := br.Read(p)
